@@ -221,8 +221,9 @@ def count_ops(g):
 
 
 # ------------------------------------------------------------------------------- inputs
-def derive(rng, g, e, depth):
-    """a random sentence of e, or None when the depth budget is exhausted"""
+def derive(rng, g, e, depth, long_rep=0):
+    """a random sentence of e, or None when the depth budget is exhausted; long_rep > 0: an unbounded (or large enough)
+    repetition is, half of the time, iterated long_rep times (long inputs: more than 256 partial matches alive)"""
     defs = {r["name"].casefold(): r.get("def") for r in g["rules"]}
 
     def go(e, d):
@@ -265,6 +266,8 @@ def derive(rng, g, e, depth):
             if hi < mn:
                 return None
             n = rng.randint(mn, min(hi, mn + 3))
+            if long_rep and (mx is None or mx >= long_rep) and mn <= long_rep and rng.random() < 0.5:
+                n = long_rep
             out = []
             for _ in range(n):
                 r = go(e[3], d - 1)
